@@ -162,6 +162,13 @@ func runSendClose(c *Ctx) {
 						}
 					}
 				}
+				// pc := lookup() where lookup is a call-only function parameter and every function the callers pass
+				// returns nil or an element of Hub.sessions: the look-up runs here, inside this critical section
+				if call, ok := ast.Unparen(as.Rhs[0]).(*ast.CallExpr); ok && len(call.Args) == 0 {
+					if o := ObjOf(g.Info(), as.Lhs[0]); o != nil && strings.Contains(o.Type().String(), "peerConnection") && hubLookupParam(p, g, call, sessions) {
+						return fmt.Sprintf("looked-up:%d", look.objID(o)), true
+					}
+				}
 			}
 			return "", false
 		}}}
@@ -722,6 +729,20 @@ func runHubScope(c *Ctx) {
 					}
 				}
 			}
+			// the second step as the result of a look-up literal: return h.sessions[s][connID]
+			if rs, ok := n.(*ast.ReturnStmt); ok && connObj != nil {
+				for _, res := range rs.Results {
+					if ix, ok := ast.Unparen(res).(*ast.IndexExpr); ok && ObjOf(info, ix.Index) == connObj {
+						if ix2, ok := ast.Unparen(ix.X).(*ast.IndexExpr); ok {
+							if sel, ok := ast.Unparen(ix2.X).(*ast.SelectorExpr); ok {
+								if fv, _ := info.Uses[sel.Sel].(*types.Var); fv == sessions {
+									okChain = true
+								}
+							}
+						}
+					}
+				}
+			}
 			return true
 		})
 		c.Check(okChain, "addressed/SendTo", st.Pos(), "SendTo sends to sessions[session][byPeerID[session][peer]]", "SendTo no longer resolves the addressee through byPeerID[session][peer]: an addressed message can reach a different peer")
@@ -1270,4 +1291,118 @@ func runSessionDrop(c *Ctx) {
 				"facts here: "+strings.Join(spec.PassedList(f, r), ", "))
 		})
 	}
+}
+
+// hubLookupParam: call is `param()` where param is a function-typed parameter of g (a method of Hub) that g only ever
+// calls, and every argument passed for it at g's call sites is a function literal all of whose results are nil or an
+// element of Hub.sessions (h.sessions[..][..]).
+func hubLookupParam(p *Program, g *FuncInfo, call *ast.CallExpr, sessions *types.Var) bool {
+	id, ok := ast.Unparen(call.Fun).(*ast.Ident)
+	if !ok {
+		return false
+	}
+	root := g.Root()
+	if root.Decl == nil || root.Obj == nil {
+		return false
+	}
+	param := root.Info().Uses[id]
+	idx, k := -1, 0
+	for _, fld := range root.Type.Params.List {
+		for _, nm := range fld.Names {
+			if root.Info().Defs[nm] == param && param != nil {
+				idx = k
+			}
+			k++
+		}
+	}
+	if idx < 0 {
+		return false
+	}
+	// call-only
+	callOnly := true
+	funOf := map[*ast.Ident]bool{}
+	ast.Inspect(root.Body, func(m ast.Node) bool {
+		if c2, ok := m.(*ast.CallExpr); ok {
+			if i2, ok := ast.Unparen(c2.Fun).(*ast.Ident); ok && root.Info().Uses[i2] == param {
+				funOf[i2] = true
+			}
+		}
+		return true
+	})
+	ast.Inspect(root.Body, func(m ast.Node) bool {
+		if i2, ok := m.(*ast.Ident); ok && root.Info().Uses[i2] == param && !funOf[i2] {
+			callOnly = false
+		}
+		return true
+	})
+	if !callOnly {
+		return false
+	}
+	sites := 0
+	for _, st := range p.CallSites(root.Obj) {
+		okSite := true
+		found := false
+		InspectNoLits(st.ref.Node(), func(m ast.Node) bool {
+			c2, ok := m.(*ast.CallExpr)
+			if !ok || p.CalleeInfo(st.f.Info(), c2) != root || len(c2.Args) <= idx {
+				return true
+			}
+			found = true
+			lit, ok := ast.Unparen(c2.Args[idx]).(*ast.FuncLit)
+			if !ok {
+				okSite = false
+				return true
+			}
+			info := st.f.Info()
+			nret := 0
+			ast.Inspect(lit.Body, func(x ast.Node) bool {
+				if inner, ok := x.(*ast.FuncLit); ok && inner != lit {
+					return false
+				}
+				rs, ok := x.(*ast.ReturnStmt)
+				if !ok {
+					return true
+				}
+				nret++
+				if len(rs.Results) != 1 {
+					okSite = false
+					return true
+				}
+				r := ast.Unparen(rs.Results[0])
+				if rid, ok := r.(*ast.Ident); ok && rid.Name == "nil" {
+					return true
+				}
+				e := r
+				depth := 0
+				for {
+					ix, ok := e.(*ast.IndexExpr)
+					if !ok {
+						break
+					}
+					e = ast.Unparen(ix.X)
+					depth++
+				}
+				sel, ok := e.(*ast.SelectorExpr)
+				if !ok || depth != 2 {
+					okSite = false
+					return true
+				}
+				if fv, _ := info.Uses[sel.Sel].(*types.Var); fv != sessions {
+					okSite = false
+				}
+				return true
+			})
+			if nret == 0 {
+				okSite = false
+			}
+			return true
+		})
+		if found {
+			sites++
+			if !okSite {
+				return false
+			}
+		}
+	}
+	return sites > 0
 }
